@@ -6,7 +6,7 @@ from itertools import zip_longest
 
 from scipy import special
 
-from .jacobi import jacobi, jacobi_seq, jacobi_sum_clenshaw_der
+from .jacobi import jacobi, jacobi_seq, jacobi_sum_clenshaw_der, _as_sequence
 
 from prysm.mathops import np, kronecker, gamma, sign
 from prysm.conf import config
@@ -148,6 +148,7 @@ def change_basis_Qbfs_to_Pn(cs):
 
 
     """
+    cs = _as_sequence(cs)
     if hasattr(cs, 'dtype') and cs.dtype.kind == 'f':
         # floating point array, initialize as array of the same type
         bs = np.empty_like(cs)
@@ -219,6 +220,7 @@ def clenshaw_qbfs(cs, usq, alphas=None):
 
     """
     x = usq
+    cs = _as_sequence(cs)
     bs = change_basis_Qbfs_to_Pn(cs)
     # alphas = np.zeros((len(cs), len(u)), dtype=u.dtype)
     alphas = _initialize_alphas(cs, x, alphas, j=0)
@@ -271,6 +273,7 @@ def clenshaw_qbfs_der(cs, usq, j=1, alphas=None):
 
     """
     x = usq
+    cs = _as_sequence(cs)
     M = len(cs) - 1
     prefix = 2 - 4 * x
     alphas = _initialize_alphas(cs, usq, alphas, j=j)
@@ -326,6 +329,7 @@ def compute_z_zprime_Qbfs(coefs, u, usq):
 
     """
     # clenshaw does its own u^2
+    coefs = _as_sequence(coefs)
     alphas = clenshaw_qbfs_der(coefs, usq, j=1)
     if len(coefs) > 1:
         S = 2 * (alphas[0][0] + alphas[0][1])
@@ -969,7 +973,7 @@ def change_of_basis_Q2d_to_Pnm(cns, m):
     if m < 0:
         m = -m
 
-    cs = cns
+    cs = _as_sequence(cns)
     if hasattr(cs, 'dtype') and cs.dtype.kind == 'f':
         # floating point array, initialize as array of the same type
         ds = np.empty_like(cs)
@@ -1037,6 +1041,7 @@ def clenshaw_q2d(cns, m, usq, alphas=None):
     x = usq
     # the radial polynomials depend on |m| only (the sign selects cos/sin)
     m = abs(m)
+    cns = _as_sequence(cns)
     ds = change_of_basis_Q2d_to_Pnm(cns, m)
     alphas = _initialize_alphas(ds, x, alphas, j=0)
     N = len(ds) - 1
@@ -1085,7 +1090,7 @@ def clenshaw_q2d_der(cns, m, usq, j=1, alphas=None):
         the alphas array
 
     """
-    cs = cns
+    cs = _as_sequence(cns)
     x = usq
     # the radial polynomials depend on |m| only (the sign selects cos/sin)
     m = abs(m)
@@ -1160,6 +1165,8 @@ def compute_z_zprime_Q2d(cm0, ams, bms, u, t):
     dt = np.zeros_like(u)
 
     # this is terrible, need to re-think this
+    if cm0 is not None:
+        cm0 = _as_sequence(cm0)
     if cm0 is not None and len(cm0) > 0:
         zm0, zprimem0 = compute_z_zprime_Qbfs(cm0, u, usq)
         z += zm0
@@ -1182,6 +1189,8 @@ def compute_z_zprime_Q2d(cm0, ams, bms, u, t):
         # may be unequal
 
         # can't use "as" => as keyword
+        a_coef = _as_sequence(a_coef)
+        b_coef = _as_sequence(b_coef)
         Na = len(a_coef) - 1
         Nb = len(b_coef) - 1
         if Na < 0 and Nb < 0:
